@@ -344,6 +344,9 @@ func parseAux(aux []byte) ([]sam.Aux, error) {
 		switch j := jumps[t]; {
 		case j > 0:
 			j += 3
+			if i+j > len(aux) {
+				return nil, errors.New("bam: invalid aux data: value extends beyond the record")
+			}
 			aa = append(aa, sam.Aux(aux[i:i+j:i+j]))
 			i += j
 		case j < 0:
@@ -370,6 +373,9 @@ func parseAux(aux []byte) ([]sam.Aux, error) {
 				}
 				i += j + 1
 			case 'B':
+				if i+8 > len(aux) {
+					return nil, errors.New("bam: invalid aux data: array header extends beyond the record")
+				}
 				length := binary.LittleEndian.Uint32(aux[i+4 : i+8])
 				if jumps[aux[i+3]] <= 0 {
 					return nil, fmt.Errorf("bam: invalid array type for aux data: %q", aux[i+3])
